@@ -494,3 +494,77 @@ pub fn lower_runs(out: &mut Out, seed: u64, runs: usize) {
         }
     }
 }
+
+
+// ---------------------------------------------------------------------------
+// C08: validation of the metadata buffers handed to LLFree::new
+// ---------------------------------------------------------------------------
+
+/// One arena, three slices carved out at chosen offsets / lengths; logged relative to the arena base.
+pub fn meta_runs(out: &mut Out, seed: u64, runs: usize) {
+    let mut rng = Rng(seed ^ 0x0e7a);
+    for r in 0..runs {
+        let frames = *rng.pick(&[TF, TF + HF + 3, 2 * TF, 3 * TF + 65, HF - 1]);
+        let (cls, k) = *rng.pick(&[("simple", 1usize), ("simple", 3), ("movable", 2)]);
+        let c = classing(cls, k);
+        let ms = LLFree::metadata_size(&c, frames);
+        let req = [ms.local, ms.trees, ms.lower];
+        let arena_len = 4 * (ms.local + ms.trees + ms.lower) + 4096;
+        let arena = Buf::new(arena_len);
+        // a valid layout first: consecutive, 64-byte aligned
+        let al = |x: usize| x.next_multiple_of(64);
+        let mut off = [256usize, 0, 0];
+        off[1] = al(off[0] + req[0]) + 64;
+        off[2] = al(off[1] + req[1]) + 64;
+        let mut len = req;
+        // then one corruption
+        let kind = r % 12;
+        let a = rng.below(3);
+        let b = (a + 1 + rng.below(2)) % 3;
+        match kind {
+            0 => {}
+            1 => len[a] = req[a] - 1,                                  // one byte short
+            2 => len[a] = req[a] + 1 + rng.below(200),                 // longer is fine
+            3 => off[a] += 1 + rng.below(63),                          // misaligned
+            4 => off[b] = off[a],                                      // identical start
+            5 => {                                                     // b starts inside a
+                off[b] = off[a] + al(1 + rng.below(req[a].max(2) - 1)).min(al(req[a]) - 64).max(0);
+                if off[b] == off[a] { off[b] = off[a]; }
+            }
+            6 => {                                                     // a strictly inside an enlarged b
+                len[b] = req[b] + 2 * al(req[a]) + 256;
+                off[b] = al(off[a].max(256 + len[b])) ;
+                off[a] = off[b] + 64;
+            }
+            7 => {                                                     // b ends inside a
+                if off[a] >= al(len[b]) { off[b] = off[a] + 64 - al(len[b]).min(off[a]); }
+                len[b] = len[b].max(req[b]);
+                off[b] = off[a].saturating_sub(al(len[b]) - 64);
+            }
+            8 => {                                                     // exactly adjacent (valid)
+                off[b] = al(off[a] + len[a]);
+                if b != 2 && a != 2 { off[2] = al(off[0].max(off[1]) + len[0].max(len[1])) + al(len[0] + len[1]) + 64; }
+            }
+            9 => len[a] = 0,                                           // empty buffer although bytes are required
+            10 => { len[a] = req[a] + 64; len[b] = req[b] + 128; }     // both longer (valid)
+            _ => off[a] += 64 * (1 + rng.below(4)),                    // shifted but aligned (may overlap the next)
+        }
+        if (0..3).any(|i| off[i] + len[i] > arena_len) {
+            continue;
+        }
+        let sl = |i: usize| -> &'static mut [u8] {
+            unsafe { std::slice::from_raw_parts_mut((arena.base() + off[i]) as *mut u8, len[i]) }
+        };
+        let meta = MetaData { local: sl(0), trees: sl(1), lower: sl(2) };
+        let res = std::panic::catch_unwind(std::panic::AssertUnwindSafe(|| {
+            LLFree::new(frames, Init::FreeAll, &c, meta).map(|_| ())
+        }));
+        let res = match res {
+            Ok(Ok(())) => "ok",
+            Ok(Err(e)) => err_str(e),
+            Err(_) => "panic",
+        };
+        out.push(json!({"ev":"meta","kind":kind,"frames":frames,"req":req,"off":off,"len":len,
+            "basealign": arena.base() % 64, "res":res}));
+    }
+}
